@@ -39,7 +39,7 @@ def gen_member(r):
 def gen_typ(r, max_members=5):
     opt = r.random() < 0.4
     if r.random() < 0.3:
-        n = 1 if r.random() < 0.06 else r.randint(2, max(2, max_members))  # a one-member Literal makes the emitter raise
+        n = r.randint(1, max(2, max_members))  # one-member Literals included (subscript is the member itself, not a Tuple)
         ms = [gen_member(r) for _ in range(n)]
         if r.random() < 0.85:  # mostly distinct members; duplicates are legal Python
             ms = list(OrderedDict.fromkeys(ms))
